@@ -370,8 +370,13 @@ class TimeEnv:
   forms: set = dataclasses.field(default_factory=set)
 
   @property
+  def nominal(self):
+    """TTML2 ttp:frameRate: 'if not specified, the frame rate must be considered to be equal to 30'."""
+    return 30 if self.frame_rate is None else self.frame_rate
+
+  @property
   def effective(self):
-    return None if self.frame_rate is None else self.frame_rate * self.multiplier
+    return self.nominal * self.multiplier
 
 
 def parse_time(s: str, env: TimeEnv) -> typing.Optional[Fraction]:
@@ -386,9 +391,7 @@ def parse_time(s: str, env: TimeEnv) -> typing.Optional[Fraction]:
       t += Fraction(int(frac[1:]), 10 ** (len(frac) - 1))
       env.forms.add("clock-fraction")
     elif frames is not None:
-      if env.frame_rate is None:
-        raise Unsupported("frames-without-frameRate")
-      if int(frames) >= env.frame_rate:
+      if int(frames) >= env.nominal:
         return None
       t += Fraction(int(frames)) / env.effective
       env.forms.add("clock-frames")
@@ -404,8 +407,6 @@ def parse_time(s: str, env: TimeEnv) -> typing.Optional[Fraction]:
     metric = m.group(3)
     env.forms.add("offset-" + metric)
     if metric == "f":
-      if env.frame_rate is None:
-        raise Unsupported("frames-without-frameRate")
       return count / env.effective
     if metric == "t":
       if env.tick_rate is None:
